@@ -344,4 +344,3 @@ func TestVerifC11(t *testing.T) {
 	}
 	_ = os.Getenv
 }
-
